@@ -1,0 +1,14 @@
+//go:build !verif
+
+package server
+
+// No-op verification hooks. The real implementations are compiled in with the
+// build tag "verif" (see verif_on.go).
+
+func verifPoint(site string) {}
+
+func verifCount(site string) {}
+
+func verifActivity() {}
+
+func verifSub(site string, s *Subscription) {}
